@@ -67,6 +67,10 @@ def mix(rnd, tier, scratch, seed):
                     ups.append(dict(fam="upload", len=n, limit=limit, mode=mode))
     rnd.shuffle(ups)
     ups = ups[: (400 if tier == "quick" else 2000)]
+    # downloads of handler-owned assets (HttpBody replies whose data the application keeps): sizes around the buffer sizes
+    for n in [1, 15, 16, 17, 64, 200, 1000, 4096, 70000]:
+        for k in range(6 if tier == "quick" else 30):
+            ups.append(dict(fam="upload", len=n + k, limit=64, mode="download"))
     allc = cases + ups
     rnd.shuffle(allc)
     for i, c in enumerate(allc):
